@@ -46,6 +46,17 @@ CLAIMED['C17'] = dict(
     note='Trusted: M2S, z3, the callback returns true; expression nesting deeper than 3 is outside the claim (cut paths are counted). The second half of the property (resolution with exactly the discovered set) is outside.',
     design='DESIGN.md section 3 / C17')
 
+CLAIMED['C09'] = dict(
+    technique='symbolic execution of rustc MIR (M2S): one inductive step of TypeAggregator::aggregate from an arbitrary state satisfying the naming invariant; merge rule with an uninterpreted preorder; z3 queries; native replay through TypeAggregator',
+    text='(1) aggregate() naming/redirect step: from every state with <= K imports and <= R redirects satisfying the naming invariant (one import per '
+         'semver track, redirects end at imports of the same track that are not lower) and every new name, the invariant is preserved, every old name '
+         'still resolves to an import, the canonical name of the new name is the highest on its track, errors only when the opaque merge fails - hence '
+         'for histories of any length. (2) find_semver_compatible_import on real strings = the semver-track relation. (3) merge_interface export rule: '
+         'merged exports satisfy both contributors for an arbitrary preorder <: (known finding: the wider type of a nested instance export is kept). '
+         'remap_* deep copies, merge_world, merge_module_type and used-type merging are outside the claim.',
+    note='Trusted: alternate_lookup_key contract (C15), M2S, z3, IndexMap/HashMap association-list models. Names differing only in build metadata are outside the naming-step claim.',
+    design='DESIGN.md section 3 / C09')
+
 NOT_APPLICABLE = {
  'C01': 'validity is defined by an external 60 kLoC validator over whole-pipeline output; neither it nor the encoder can be executed symbolically here (DESIGN.md section 4)',
  'C05': 'needs wit-component as reference encoder and the validator subtype relation as comparison; out of reach of symbolic execution (DESIGN.md section 4)',
